@@ -702,13 +702,13 @@ def tlaps_proof():
     keys pairwise different) is inductive for ANY capacity, key universe and slot-sequence length
     (Init => Inv, Inv /\\ [Next]_slots => Inv', hence []Inv), and that every slot-level step refines the
     ideal set of keys (spec/MapProof.tla) and the ideal key-value map (spec/MapProofKV.tla); the loop invariant
-    of retain and its postcondition (spec/MapProofRetain.tla)."""
+    of retain and its postcondition (spec/MapProofRetain.tla); stored-key identity (spec/MapProofId.tla, C12)."""
     d = os.path.join(WORK, "tlaps-%d" % os.getpid())
     shutil.rmtree(d, ignore_errors=True)
     os.makedirs(d)
     out = []
     shutil.copy(os.path.join(SPEC, "MapProofKV.tla"), d)       # (MapProofRetain extends it)
-    for mod in ("MapProof.tla", "MapProofKV.tla", "MapProofRetain.tla"):
+    for mod in ("MapProof.tla", "MapProofKV.tla", "MapProofRetain.tla", "MapProofId.tla"):
         shutil.copy(os.path.join(SPEC, mod), d)
         t0 = time.time()
         p = sh(["timeout", "900", "tlapm", "--threads", "8", "--cleanfp", mod], cwd=d, timeout=1000, check=False)
@@ -815,6 +815,8 @@ def run_check(pid, tier, seed):
         summary["tlaps_inductive_invariant"] = tlaps_proof()
     if pid in ("C13", "C18"):
         summary["apalache_disjoint"] = apalache_disjoint(tier)
+    if pid == "C12":
+        summary["tlaps_inductive_invariant"] = tlaps_proof()
     if pid in ("C01", "C07"):
         summary["apalache_refinement"] = apalache_refinement(tier)
         summary["tlaps_inductive_invariant"] = tlaps_proof()
@@ -891,7 +893,7 @@ def main():
             os.makedirs(WORK, exist_ok=True)
             build_all(["debug", "release", "asan"])
             for f in sorted(os.listdir(SPEC)):
-                if f in ("MapProof.tla", "MapProofKV.tla", "MapProofRetain.tla"):      # TLAPS proof modules: parsed and checked by tlapm inside the C05 / C03 checks
+                if f in ("MapProof.tla", "MapProofKV.tla", "MapProofRetain.tla", "MapProofId.tla"):      # TLAPS proof modules: parsed and checked by tlapm inside the C05 / C03 checks
                     continue
                 if f in ("MapInd.tla", "MapDisj.tla", "MapRef.tla"):      # typed for Apalache (EXTENDS Apalache): checked by its own type checker
                     p = sh(["timeout", "300", "apalache-mc", "typecheck", f], cwd=SPEC, timeout=400, check=False)
